@@ -10,13 +10,18 @@ sid, src = sys.argv[1], sys.argv[2]
 quick_only = "--quick" in sys.argv
 ENV = dict(os.environ, GOFLAGS="-mod=mod", GOPROXY="off", GOSUMDB="off", GOTOOLCHAIN="local")
 out = os.path.join(src, "seed_out")
-meta = json.load(open(os.path.join(out, "meta.json")))
-pid = meta["property"]
 dst = os.path.join("/verif/seeded", sid)
 os.makedirs(dst, exist_ok=True)
-for f in os.listdir(out):
-    if os.path.isfile(os.path.join(out, f)):
-        shutil.copy(os.path.join(out, f), os.path.join(dst, f))
+if os.path.isdir(out):
+    meta = json.load(open(os.path.join(out, "meta.json")))
+    for f in os.listdir(out):
+        if os.path.isfile(os.path.join(out, f)):
+            shutil.copy(os.path.join(out, f), os.path.join(dst, f))
+else:  # re-verification of a kept seed
+    meta = json.load(open(os.path.join(dst, "meta.json")))
+    meta = {k: meta[k] for k in ("property", "summary", "needs", "demo", "tests_run") if k in meta}
+    out = dst
+pid = meta["property"]
 patch = os.path.join(dst, "patch.diff")
 
 
